@@ -124,4 +124,65 @@ def final (s : S) : List Op → S
   | [] => s
   | op :: ops => final (step s op).1 ops
 
+/-! ## the read-back path of `kernel.AggregateMintWork`
+
+    WORKSNAPSHOT ‖ node ‖ round(8) ‖ timestamp(8) ↦ hash ‖ signer ‖ signer …      `recs`
+
+  `writeSnapshotWork` (called by `WriteSnapshot`) sets one record; `ReadSnapshotWorksForNodeRound`
+  lists the records of a (node, round) in key order = timestamp order, each with its own hash,
+  timestamp and signer list; `WriteRoundWork` deletes the records of the round it leaves
+  (`removeSnapshotWorksForRound(off)` when `round = off + 1`). -/
+
+abbrev RecKey := Hash × Nat × Nat
+
+structure SR where
+  s : S
+  recs : List (RecKey × (Hash × List Hash))
+  deriving Repr, DecidableEq
+
+def emptySR : SR := { s := empty, recs := [] }
+
+def recLt (a b : RecKey) : Prop :=
+  a.1 < b.1 ∨ (a.1 = b.1 ∧ (a.2.1 < b.2.1 ∨ (a.2.1 = b.2.1 ∧ a.2.2 < b.2.2)))
+
+instance (a b : RecKey) : Decidable (recLt a b) := by unfold recLt; exact inferInstance
+
+/-- `txn.Set`: sorted insert, an equal key is overwritten -/
+def insertRec (k : RecKey) (v : Hash × List Hash) :
+    List (RecKey × (Hash × List Hash)) → List (RecKey × (Hash × List Hash))
+  | [] => [(k, v)]
+  | x :: xs => if recLt k x.1 then (k, v) :: x :: xs else if k = x.1 then (k, v) :: xs
+      else x :: insertRec k v xs
+
+/-- `writeSnapshotWork` -/
+def writeWork (x : SR) (node : Hash) (round ts : Nat) (hash : Hash) (signers : List Hash) : SR :=
+  { x with recs := insertRec (node, round, ts) (hash, signers) x.recs }
+
+/-- `ReadSnapshotWorksForNodeRound`: the reader is the identity on what was written -/
+def readWorks (x : SR) (node : Hash) (round : Nat) : List Snap :=
+  (x.recs.filter (fun e => e.1.1 = node ∧ e.1.2.1 = round)).map
+    (fun e => { hash := e.2.1, ts := e.1.2.2, signers := e.2.2 })
+
+/-- read the round's works and submit them, as `AggregateMintWork` does -/
+def submitRead (x : SR) (node : Hash) (round : Nat) (credit : Bool) : Option SR :=
+  let off := (readOff node x.s.off).1
+  match writeRoundWork x.s node round (readWorks x node round) credit with
+  | none => none
+  | some s' =>
+    some { s := s',
+           recs := if round = off + 1 then
+               x.recs.filter (fun e => ¬ (e.1.1 = node ∧ e.1.2.1 = off))
+             else x.recs }
+
+/-- a direct `WriteRoundWork` on the layered state (also deletes the records of the round left) -/
+def submitSR (x : SR) (node : Hash) (round : Nat) (snaps : List Snap) (credit : Bool) : Option SR :=
+  let off := (readOff node x.s.off).1
+  match writeRoundWork x.s node round snaps credit with
+  | none => none
+  | some s' =>
+    some { s := s',
+           recs := if round = off + 1 then
+               x.recs.filter (fun e => ¬ (e.1.1 = node ∧ e.1.2.1 = off))
+             else x.recs }
+
 end Mixin.Work
